@@ -150,13 +150,18 @@ class Ctx:
                         raise Broken("yuck failed on %s: %s" % (f, r.stdout))
 
     def cleanup(self):
+        if os.environ.get("VERIF_GCOV") and self.scratch:
+            # development aid (tools/coverage.sh): line coverage of the C sources under this check's generators
+            out = os.path.join(os.environ["VERIF_GCOV"], self.prop)
+            os.makedirs(out, exist_ok=True)
+            sh("cd %s && gcov -o . *.gcda > /dev/null 2>&1; cp *.gcov %s/ 2>/dev/null" % (self.scratch, out), shell=True)
         if self.scratch and os.path.isdir(self.scratch):
             shutil.rmtree(self.scratch, ignore_errors=True)
 
     def cc(self, out, sources, extra=(), san=True, libs=("-lm", "-ldl"), inc=()):
         """compile harness `sources` (paths) against the scratch copy; returns binary path."""
         exe = os.path.join(self.scratch, out)
-        cmd = ["gcc"] + CFLAGS + (SAN if san else []) + list(extra)
+        cmd = ["gcc"] + CFLAGS + (SAN if san else []) + list(extra) + (["--coverage"] if os.environ.get("VERIF_GCOV") else [])
         for i in inc:
             cmd += ["-I", i]
         cmd += ["-I", self.src, "-I", HARNESS] + list(sources) + ["-o", exe] + list(libs)
